@@ -39,6 +39,5 @@ Proof. exact obj_flush_once. Qed.
 Print Assumptions C33_obj_flush_once_except_known.
 
 Example C33_nonvacuous : R st_principal /\
-  exists s', flush no_hooks 50 10 st_principal = Ok s' /\
-             log s' = [EB KIns 0; EB KIns 1; ES KIns 0; ES KIns 1; EA KIns 0; EA KIns 1].
-Proof. split; [exact st_principal_R|]. eexists; split; [vm_compute; reflexivity | reflexivity]. Qed.
+  result_log (flush no_hooks 50 10 st_principal) = [EB KIns 0; EB KIns 1; ES KIns 0; ES KIns 1; EA KIns 0; EA KIns 1].
+Proof. split; [exact st_principal_R | vm_compute; reflexivity]. Qed.
